@@ -22,9 +22,352 @@ pub fn generate(tier: &str, rng: &mut Rng) -> Vec<String> {
         c.extra_polls += 2;
         out.push(c.line());
     }
+    out.extend(gen_whole(tier, rng));
     out
 }
 
 pub fn execute(case: &str) -> String {
-    crate::framing::execute(case)
+    let t: Vec<&str> = case.split(' ').collect();
+    match t[0] {
+        "resp" => exec_resp(&t),
+        "req" => exec_req(&t),
+        _ => crate::framing::execute(case),
+    }
+}
+
+// ===== whole responses (server::Grpc) and whole requests (client::Grpc): oracle-only cases =====
+//
+//   resp <u|s> <send set> <accept-header hex|-> <early code|-> <end code> MSGS <hex>*
+//        send set: letters g d z in enabling order, or `-`
+//        observed: S<http> ct<hex> ge<hex|-> gs<code|-> B <d<hex>|t<code>|n>* Z k (raw|F comp)*
+//   req  <send g|d|z|-> <accept set> <origin path hex> <method path hex> META (<name hex> <value hex>)* MSG <hex>
+//        observed: M<method> V<version> P<hex> ct<hex> te<hex> ge<hex|-> gae<hex|-> B <frames>* Z …
+use bytes::Bytes;
+use http_body::Frame;
+use http_body_util::BodyExt;
+use std::future::Future;
+use std::pin::Pin;
+use std::task::{Context, Poll};
+use tonic::codec::{BufferSettings, Codec, CompressionEncoding};
+use tonic::{Request, Response, Status};
+
+#[derive(Clone, Default)]
+pub struct RawCodec;
+impl Codec for RawCodec {
+    type Encode = Vec<u8>;
+    type Decode = Vec<u8>;
+    type Encoder = RawEnc;
+    type Decoder = RawDec;
+    fn encoder(&mut self) -> RawEnc {
+        RawEnc(BufferSettings::default())
+    }
+    fn decoder(&mut self) -> RawDec {
+        RawDec(BufferSettings::default())
+    }
+}
+
+fn enc_of_letter(c: char) -> Option<CompressionEncoding> {
+    match c {
+        'g' => Some(CompressionEncoding::Gzip),
+        'd' => Some(CompressionEncoding::Deflate),
+        'z' => Some(CompressionEncoding::Zstd),
+        _ => None,
+    }
+}
+
+/// bare hex; the empty string is the visible token `.`
+fn hexb(b: &[u8]) -> String {
+    if b.is_empty() {
+        ".".to_string()
+    } else {
+        hex(b)[1..].to_string()
+    }
+}
+fn unhexb(s: &str) -> Vec<u8> {
+    if s == "." {
+        vec![]
+    } else {
+        unhex(&format!("x{}", s)).unwrap()
+    }
+}
+fn hdr_tok(prefix: &str, h: &http::HeaderMap, name: &str) -> String {
+    let vals: Vec<String> = h.get_all(name).iter().map(|v| hexb(v.as_bytes())).collect();
+    if vals.is_empty() {
+        format!("{}-", prefix)
+    } else {
+        format!("{}{}", prefix, vals.join(","))
+    }
+}
+
+#[derive(Clone)]
+struct Script {
+    early: Option<i32>,
+    msgs: Vec<Vec<u8>>,
+    end: i32,
+}
+
+type BoxStream = Pin<Box<dyn tokio_stream::Stream<Item = Result<Vec<u8>, Status>> + Send>>;
+
+impl tonic::server::ServerStreamingService<Vec<u8>> for Script {
+    type Response = Vec<u8>;
+    type ResponseStream = BoxStream;
+    type Future = Pin<Box<dyn Future<Output = Result<Response<BoxStream>, Status>> + Send>>;
+    fn call(&mut self, _req: Request<Vec<u8>>) -> Self::Future {
+        let s = self.clone();
+        Box::pin(async move {
+            if let Some(c) = s.early {
+                return Err(Status::new(tonic::Code::from_i32(c), "user"));
+            }
+            let mut items: Vec<Result<Vec<u8>, Status>> = s.msgs.into_iter().map(Ok).collect();
+            if s.end != 0 {
+                items.push(Err(Status::new(tonic::Code::from_i32(s.end), "user")));
+            }
+            Ok(Response::new(Box::pin(tokio_stream::iter(items)) as BoxStream))
+        })
+    }
+}
+
+impl tonic::server::UnaryService<Vec<u8>> for Script {
+    type Response = Vec<u8>;
+    type Future = Pin<Box<dyn Future<Output = Result<Response<Vec<u8>>, Status>> + Send>>;
+    fn call(&mut self, _req: Request<Vec<u8>>) -> Self::Future {
+        let s = self.clone();
+        Box::pin(async move {
+            if let Some(c) = s.early {
+                return Err(Status::new(tonic::Code::from_i32(c), "user"));
+            }
+            Ok(Response::new(s.msgs.first().cloned().unwrap_or_default()))
+        })
+    }
+}
+
+async fn drain_body<B>(mut body: B) -> (Vec<String>, Vec<u8>)
+where
+    B: http_body::Body<Data = Bytes> + Unpin,
+    B::Error: std::fmt::Debug,
+{
+    let mut toks = Vec::new();
+    let mut data = Vec::new();
+    let mut extra = 0;
+    loop {
+        match body.frame().await {
+            None => {
+                toks.push("n".to_string());
+                extra += 1;
+                if extra >= 2 {
+                    break;
+                }
+            }
+            Some(Err(e)) => {
+                toks.push(format!("e:{:?}", e).replace(' ', "_").chars().take(40).collect());
+                break;
+            }
+            Some(Ok(f)) => {
+                if f.is_data() {
+                    let d = f.into_data().unwrap();
+                    data.extend_from_slice(&d);
+                    toks.push(format!("d{}", hexb(&d)));
+                } else {
+                    let t = f.into_trailers().unwrap();
+                    let code = t.get("grpc-status").map(|v| String::from_utf8_lossy(v.as_bytes()).to_string()).unwrap_or_else(|| "-".into());
+                    toks.push(format!("t{}", code));
+                }
+            }
+        }
+        if toks.len() > 200 {
+            toks.push("busy-loop".into());
+            break;
+        }
+    }
+    (toks, data)
+}
+
+fn announced(h: &http::HeaderMap) -> Option<CompressionEncoding> {
+    match h.get("grpc-encoding").map(|v| v.as_bytes()) {
+        Some(b"gzip") => Some(CompressionEncoding::Gzip),
+        Some(b"deflate") => Some(CompressionEncoding::Deflate),
+        Some(b"zstd") => Some(CompressionEncoding::Zstd),
+        _ => None,
+    }
+}
+
+fn ztab_for(h: &http::HeaderMap, data: &[u8]) -> String {
+    match announced(h) {
+        Some(e) => ztable_tokens(&ztable_for_stream(e, data)),
+        None => {
+            // nothing announced: flag-1 payloads cannot be judged by any decompressor
+            let tab: Vec<(Option<Vec<u8>>, Vec<u8>)> = ztable_for_stream(CompressionEncoding::Gzip, data).into_iter().map(|(_, c)| (None, c)).collect();
+            ztable_tokens(&tab)
+        }
+    }
+}
+
+pub fn exec_resp(t: &[&str]) -> String {
+    let rt = paused_rt();
+    rt.block_on(async move {
+        let mut grpc = tonic::server::Grpc::new(RawCodec);
+        for c in t[2].chars() {
+            if let Some(e) = enc_of_letter(c) {
+                grpc = grpc.send_compressed(e);
+            }
+        }
+        let pos = t.iter().position(|x| *x == "MSGS").unwrap();
+        let script = Script {
+            early: if t[4] == "-" { None } else { Some(t[4].parse().unwrap()) },
+            end: t[5].parse().unwrap(),
+            msgs: t[pos + 1..].iter().map(|m| unhexb(m)).collect(),
+        };
+        let mut req = http::Request::new(tonic::body::Body::new(http_body_util::Full::new(Bytes::from(frame(0, &[1, 2, 3])))));
+        *req.method_mut() = http::Method::POST;
+        req.headers_mut().insert("content-type", "application/grpc".parse().unwrap());
+        if t[3] != "-" {
+            if let Ok(v) = http::HeaderValue::from_bytes(&unhexb(t[3])) {
+                req.headers_mut().insert("grpc-accept-encoding", v);
+            }
+        }
+        let resp = if t[1] == "u" { grpc.unary(script, req).await } else { grpc.server_streaming(script, req).await };
+        let (parts, body) = resp.into_parts();
+        let (frames, data) = drain_body(body).await;
+        format!(
+            "S{} {} {} {} B {} {}",
+            parts.status.as_u16(),
+            hdr_tok("ct", &parts.headers, "content-type"),
+            hdr_tok("ge", &parts.headers, "grpc-encoding"),
+            parts.headers.get("grpc-status").map(|v| format!("gs{}", String::from_utf8_lossy(v.as_bytes()))).unwrap_or_else(|| "gs-".into()),
+            frames.join(" "),
+            ztab_for(&parts.headers, &data)
+        )
+    })
+}
+
+#[derive(Clone)]
+struct Capture(std::sync::Arc<std::sync::Mutex<Option<String>>>);
+
+impl tower::Service<http::Request<tonic::body::Body>> for Capture {
+    type Response = http::Response<tonic::body::Body>;
+    type Error = Status;
+    type Future = Pin<Box<dyn Future<Output = Result<Self::Response, Status>> + Send>>;
+    fn poll_ready(&mut self, _cx: &mut Context<'_>) -> Poll<Result<(), Status>> {
+        Poll::Ready(Ok(()))
+    }
+    fn call(&mut self, req: http::Request<tonic::body::Body>) -> Self::Future {
+        let slot = self.0.clone();
+        Box::pin(async move {
+            let (parts, body) = req.into_parts();
+            let (frames, data) = drain_body(body).await;
+            let obs = format!(
+                "M{} V{:?} P{} {} {} {} {} B {} {}",
+                parts.method,
+                parts.version,
+                hexb(parts.uri.path_and_query().map(|p| p.as_str()).unwrap_or("").as_bytes()),
+                hdr_tok("ct", &parts.headers, "content-type"),
+                hdr_tok("te", &parts.headers, "te"),
+                hdr_tok("ge", &parts.headers, "grpc-encoding"),
+                hdr_tok("gae", &parts.headers, "grpc-accept-encoding"),
+                frames.join(" "),
+                ztab_for(&parts.headers, &data)
+            );
+            *slot.lock().unwrap() = Some(obs);
+            // canned OK response: one message, OK trailers
+            let mut tr = http::HeaderMap::new();
+            tr.insert("grpc-status", "0".parse().unwrap());
+            let frames: Vec<Result<Frame<Bytes>, Status>> = vec![Ok(Frame::data(Bytes::from(frame(0, &[9])))), Ok(Frame::trailers(tr))];
+            let body = tonic::body::Body::new(http_body_util::StreamBody::new(tokio_stream::iter(frames)));
+            let mut resp = http::Response::new(body);
+            resp.headers_mut().insert("content-type", "application/grpc".parse().unwrap());
+            Ok(resp)
+        })
+    }
+}
+
+pub fn exec_req(t: &[&str]) -> String {
+    let rt = paused_rt();
+    rt.block_on(async move {
+        let slot = std::sync::Arc::new(std::sync::Mutex::new(None));
+        let origin = String::from_utf8(unhexb(t[3])).unwrap();
+        let uri: http::Uri = format!("http://example.test{}", origin).parse().unwrap();
+        let mut grpc = tonic::client::Grpc::with_origin(Capture(slot.clone()), uri);
+        if let Some(e) = t[1].chars().next().and_then(enc_of_letter) {
+            grpc = grpc.send_compressed(e);
+        }
+        for c in t[2].chars() {
+            if let Some(e) = enc_of_letter(c) {
+                grpc = grpc.accept_compressed(e);
+            }
+        }
+        let mpos = t.iter().position(|x| *x == "META").unwrap();
+        let gpos = t.iter().position(|x| *x == "MSG").unwrap();
+        let mut req = Request::new(unhexb(t[gpos + 1]));
+        let mut i = mpos + 1;
+        while i + 1 < gpos {
+            let name = String::from_utf8(unhexb(t[i])).unwrap();
+            if let (Ok(k), Ok(v)) = (
+                tonic::metadata::MetadataKey::<tonic::metadata::Ascii>::from_bytes(name.as_bytes()),
+                tonic::metadata::MetadataValue::try_from(unhexb(t[i + 1])),
+            ) {
+                req.metadata_mut().append(k, v);
+            }
+            i += 2;
+        }
+        let path: http::uri::PathAndQuery = String::from_utf8(unhexb(t[4])).unwrap().parse().unwrap();
+        grpc.ready().await.unwrap();
+        let r = grpc.unary(req, path, RawCodec).await;
+        let seen = slot.lock().unwrap().clone().unwrap_or_else(|| "no-request-sent".into());
+        format!("{} R{}", seen, if r.is_ok() { "ok".to_string() } else { format!("err{}", r.err().unwrap().code() as i32) })
+    })
+}
+
+pub fn gen_whole(tier: &str, rng: &mut Rng) -> Vec<String> {
+    let mut out = Vec::new();
+    let sets = ["-", "g", "d", "z", "gd", "dg", "gz", "zg", "dz", "gdz", "zdg"];
+    let accepts: Vec<Option<&str>> = vec![
+        None, Some("gzip"), Some("deflate"), Some("zstd"), Some("identity"), Some("gzip,deflate"), Some("deflate,gzip"),
+        Some("zstd, gzip"), Some("zstd,deflate,gzip"), Some("br,gzip"), Some("gzip, identity"), Some(""), Some("GZIP"), Some(" gzip "),
+    ];
+    // every send set × accept header × shape × outcome, small messages
+    for s in sets {
+        for a in &accepts {
+            for shape in ["u", "s"] {
+                for (early, end) in [("-", 0), ("-", 5), ("3", 0)] {
+                    if shape == "u" && end != 0 {
+                        continue;
+                    }
+                    let ah = a.map(|x| hexb(x.as_bytes())).unwrap_or_else(|| "-".into());
+                    let msgs = if shape == "u" { vec![vec![7u8, 7, 7]] } else { vec![vec![1u8], vec![], vec![2u8; 40]] };
+                    out.push(format!("resp {} {} {} {} {} MSGS {}", shape, s, ah, early, end, msgs.iter().map(|m| hexb(m)).collect::<Vec<_>>().join(" ")).trim_end().to_string());
+                }
+            }
+        }
+    }
+    let n = if tier == "thorough" { 4000 } else { 300 };
+    for _ in 0..n {
+        let s = *rng.pick(&sets);
+        let a = *rng.pick(&accepts);
+        let ah = a.map(|x| hexb(x.as_bytes())).unwrap_or_else(|| "-".into());
+        let k = rng.below(4) as usize;
+        let msgs: Vec<Vec<u8>> = (0..k).map(|_| gen_msg(rng, 300)).collect();
+        let end = if rng.chance(1, 3) { rng.range(1, 16) } else { 0 };
+        out.push(format!("resp s {} {} - {} MSGS {}", s, ah, end, msgs.iter().map(|m| hexb(m)).collect::<Vec<_>>().join(" ")).trim_end().to_string());
+    }
+    // client requests: send encoding × accept sets × origins × forged user metadata
+    let origins = ["", "/", "/base", "/a/b"];
+    let metas: Vec<Vec<(&str, &str)>> = vec![
+        vec![],
+        vec![("x-user", "1")],
+        vec![("te", "gzip"), ("content-type", "text/plain"), ("x-user", "v")],
+        vec![("grpc-encoding", "zstd")],
+        vec![("user-agent", "forged"), ("x-a", "1"), ("x-a", "2")],
+    ];
+    for send in ["-", "g", "d", "z"] {
+        for acc in ["-", "g", "gd", "zdg"] {
+            for o in origins {
+                for m in &metas {
+                    let meta: Vec<String> = m.iter().map(|(k, v)| format!("{} {}", hexb(k.as_bytes()), hexb(v.as_bytes()))).collect();
+                    let msg = gen_msg(rng, 200);
+                    out.push(format!("req {} {} {} {} META {} MSG {}", send, acc, hexb(o.as_bytes()), hexb(b"/pkg.Svc/Method"), meta.join(" "), hexb(&msg)).replace("  ", " "));
+                }
+            }
+        }
+    }
+    out
 }
